@@ -5,7 +5,7 @@ SRCS = ['src/cllazyfile/sectionReader.cc', 'src/cllazyfile/lazyP21DataSectionRea
 FNS = '_ZN13sectionReader16findNormalStringERKSt6stringb'
 SRCS_NOSTR = [x for x in SRCS if x != 'src/clutils/Str.cc']
 COMMON = dict(wrapper='harness/C10/wrap_lazy.cc', irc_extra_cc=['harness/common/errordesc_stub.cc'], entry='harness',
-    cflags=['-I/repo/src/cllazyfile', '-I/repo/include/cllazyfile', '-I/repo/include/clutils', '-I/repo/src/clutils'], native_cflags=['-I/repo/src/cllazyfile', '-I/repo/include/cllazyfile', '-I/repo/src/clutils'],
+    cflags=['-I/repo/src/cllazyfile', '-I/repo/include/cllazyfile', '-I/repo/include/clutils', '-I/repo/src/clutils'], native_cflags=['-I/repo/src/cllazyfile', '-I/repo/include/cllazyfile', '-I/repo/src/clutils', '-fno-sanitize=vptr'],
     native_lib=['src/clstepcore', 'src/clutils', 'src/cldai', 'src/cleditor', 'src/cllazyfile'],
     models=['lib/cmodels/cxx_rt.c', 'lib/cmodels/printf_null.c', 'lib/cmodels/sprintf_null.c'], object_bits=11, allow_undef='*', mem_gb=40)
 HARNESSES = [
@@ -32,3 +32,9 @@ HARNESSES = [
     out_of_claim='agreement with the eager reader, the reverse-reference table and dependency closure (judy arrays), loadInstance, header section, complex instances, multi-record files', **COMMON),
 ]
 JOBS = 2
+MANIFEST = {
+  'level_text': 'Bounded model checking of the record scanner of the lazy loader: for every data-section record within the byte bound (symbolic instance number, keyword, blanks and parameter bytes over # digits quote / * ( ) , blank letter) lazyP21DataSectionReader::nextInstance / sectionReader::seekInstanceEnd index the record under its own number and keyword, list exactly the #n references that stand outside strings and comments, in order, stop right behind the record\'s own semicolon, and do not index a record they cannot delimit. GetLiteralStr is replaced by a string-free contract that a separate query proves equivalent in stream effect (assume-guarantee).',
+  'level_note': 'Trusted: CBMC, ir2c, vstd stream model, the reference scanner in the harness. Outside the claim (see not-applicable part in DESIGN.md section 5): the judy-array index and reference tables, reverse table and dependency closure, loadInstance and agreement with the eager reader, header section, multi-record files, complex instances, bodies beyond the byte bound.',
+  'technique': 'CBMC bounded model checking of IR-translated sectionReader/lazyP21DataSectionReader scanners against a reference scanner, with an SMT-proven contract for GetLiteralStr (assume-guarantee)',
+  'design_ref': 'DESIGN.md section 2, C10',
+}
